@@ -54,6 +54,30 @@ class DmxWire:
         self.raised: Optional[ast.AST] = None
 
     # -- helpers ----------------------------------------------------------------------------------------------------------
+    def const_int(self, e: ast.AST) -> Optional[int]:
+        """integer literal, or a module-level name that folds to one (`_BIN_ELEM_NULL: Final = -1`)"""
+        if isinstance(e, ast.UnaryOp) and isinstance(e.op, ast.USub) and isinstance(e.operand, ast.Constant) and isinstance(e.operand.value, int):
+            return -e.operand.value
+        if isinstance(e, ast.Constant) and isinstance(e.value, int) and not isinstance(e.value, bool):
+            return e.value
+        if isinstance(e, ast.Name) and e.id not in self.env:
+            try:
+                v = self.ex.folder.fold(e, {})
+            except Exception:
+                return None
+            return v if isinstance(v, int) and not isinstance(v, bool) else None
+        return None
+
+    def test_text(self, test: ast.AST) -> str:
+        """source of a branch test with named integer constants replaced by their value (tests are matched on this text)"""
+        me = self
+
+        class _K(ast.NodeTransformer):
+            def visit_Name(self, node: ast.Name) -> ast.AST:
+                v = me.const_int(node)
+                return ast.copy_location(ast.Constant(v), node) if v is not None else node
+        return ast.unparse(_K().visit(ast.parse(ast.unparse(test), mode='eval').body))
+
     def fmt(self, e: ast.AST) -> str:
         if isinstance(e, ast.Constant) and isinstance(e.value, str):
             return e.value
@@ -121,8 +145,8 @@ class DmxWire:
             lenof = None
             if len(x.args) == 2:
                 a = x.args[1]
-                if isinstance(a, ast.UnaryOp) and isinstance(a.op, ast.USub) and isinstance(a.operand, ast.Constant):
-                    const = -a.operand.value
+                if self.const_int(a) is not None:
+                    const = self.const_int(a)
                 elif isinstance(a, ast.Constant):
                     const = a.value
                 elif isinstance(a, ast.Call) and dotted(a.func) == 'len' and a.args:
@@ -191,7 +215,7 @@ class DmxWire:
                     pass
                 if not a and not b:
                     return []
-                return [('alt', ast.unparse(st.test), a, b, st)]
+                return [('alt', self.test_text(st.test), a, b, st)]
             return self.block(st.body if t else st.orelse)
         if isinstance(st, (ast.For, ast.While)):
             head = self.expr(st.iter) if isinstance(st, ast.For) else self.expr(st.test)
